@@ -166,12 +166,31 @@ func codecByName(n string) codec {
 
 // encodeAll encodes the results one Encode call at a time and returns the bytes and the frame offsets.
 func encodeAll(c codec, rs []vegeta.Result) ([]byte, []KV) {
+	return encodeAllWithFailure(c, rs, -1)
+}
+
+// encodeAllWithFailure also attempts, before record failAt, to encode a result that the JSON codec must refuse (a
+// timestamp that RFC 3339 cannot express): the call has to fail without leaving anything in the stream, now or later.
+func encodeAllWithFailure(c codec, rs []vegeta.Result, failAt int) ([]byte, []KV) {
 	var buf bytes.Buffer
 	enc := c.enc(&buf)
 	frames := []KV{}
 	for i := range rs {
+		if i == failAt && c.name == "json" {
+			bad := rs[i]
+			bad.Timestamp = time.Date(10000, 1, 1, 0, 0, 0, 0, time.UTC)
+			before := buf.Len()
+			if err := enc.Encode(&bad); err == nil || buf.Len() != before {
+				frames = append(frames, KV{"id": 0, "start": before, "end": buf.Len() + 1}) // an impossible frame: the case will be rejected
+			}
+		}
 		start := buf.Len()
-		must(enc.Encode(&rs[i]))
+		if err := enc.Encode(&rs[i]); err != nil {
+			if failAt >= 0 {
+				break // an encoder may stay failed after a refused result: the stream simply ends here
+			}
+			must(err)
+		}
 		frames = append(frames, KV{"id": i + 1, "start": start, "end": buf.Len()})
 	}
 	return buf.Bytes(), frames
@@ -436,6 +455,9 @@ func TestDrv_C09(t *testing.T) {
 		}
 		for _, c := range codecs {
 			data, frames := encodeAll(c, rs)
+			if c.name == "json" && s%3 == 2 && n > 1 {
+				data, frames = encodeAllWithFailure(c, rs, 1+r.Intn(n-1))
+			}
 			total := len(data)
 			tr := trs[cases%P]
 			cases++
@@ -571,6 +593,44 @@ func TestDrv_C08(t *testing.T) {
 		}
 		if len(samples) < 2 {
 			samples = append(samples, KV{"records": n, "first_body_bytes": len(rs[0].Body)})
+		}
+	}
+	// a seekable reader that the caller has already read a preamble from: the stream starts at its current position
+	for s := 0; s < 6; s++ {
+		n := 2 + r.Intn(5)
+		rs := make([]vegeta.Result, n)
+		for i := range rs {
+			rs[i] = genResult(r, i, 100)
+		}
+		for _, c := range codecs {
+			data, _ := encodeAll(c, rs)
+			pre := []byte("# preamble line that is not part of the stream\n")
+			whole := append(append([]byte{}, pre...), data...)
+			for _, kind := range []string{"bytes.Reader", "os.File"} {
+				cases++
+				tr.Emit("Reset", KV{"kind": "c08", "codec": c.name, "n": n, "chunk": 0, "bytes": len(data), "reader": kind + " at offset " + fmt.Sprint(len(pre))})
+				var rd io.Reader
+				if kind == "bytes.Reader" {
+					br := bytes.NewReader(whole)
+					br.Seek(int64(len(pre)), io.SeekStart)
+					rd = br
+				} else {
+					p := filepath.Join(dir, fmt.Sprintf("c08seek%d.%s", s, c.name))
+					must(os.WriteFile(p, whole, 0o644))
+					f, err := os.Open(p)
+					must(err)
+					defer f.Close()
+					f.Seek(int64(len(pre)), io.SeekStart)
+					rd = f
+				}
+				dec := vegeta.DecoderFor(rd)
+				if dec == nil {
+					tr.Emit("Auto", KV{"detected": false, "out": []int{}, "tail": "none"})
+					continue
+				}
+				ids, tail := decodeIDs(dec, rs, n+3)
+				tr.Emit("Auto", KV{"detected": true, "out": ids, "tail": tail})
+			}
 		}
 	}
 	// input that is in none of the formats
@@ -715,6 +775,10 @@ func TestDrv_C13(t *testing.T) {
 				res.Error = []string{"", "", "e1", "connection refused", "500 Internal Server Error"}[r.Intn(5)]
 				if r.Intn(3) == 0 { // zero-valued and empty fields right after set ones
 					res.Error, res.Body, res.Headers, res.BytesIn, res.Code = "", nil, nil, 0, 0
+				}
+				if s%4 == 1 && i == lens[f]/2 && i > 0 { // a record whose encoded line exceeds the decoders' buffers, not first in its file
+					res.Body = make([]byte, 70000)
+					r.Read(res.Body)
 				}
 				files[f] = append(files[f], res)
 				union = append(union, res)
